@@ -282,7 +282,9 @@ def items(p, depth, ctx, max_size, min_size=0):
     return st.lists(st.deferred(lambda: item(p, depth, ctx)), min_size=min_size, max_size=max_size)
 
 
-def module(p):
+def module(p, repeat=None):
+    """repeat: strategy of ints - the drawn item list is tiled that many times before finalisation (every copy gets
+    names and markers of its own), which gives modules of hundreds of items at the cost of a small draw."""
     moddoc = st.none()
     if p.moddoc:
         moddoc = weighted((2, st.none()), (1, st.fixed_dictionaries({
@@ -290,8 +292,10 @@ def module(p):
             "lines": st.lists(benign_line(), max_size=3) if p.doc is None else p.doc.map(lambda d: d["lines"]),
             "mpos": st.integers(0, 8),
             "indent": st.none() if p.moddoc_indent is None else p.moddoc_indent})))
-    return st.fixed_dictionaries({"moddoc": moddoc,
-                                  "items": items(p, p.depth, "top", p.max_items, p.min_items)}).map(finalize)
+    sk = st.fixed_dictionaries({"moddoc": moddoc, "items": items(p, p.depth, "top", p.max_items, p.min_items)})
+    if repeat is None:
+        return sk.map(finalize)
+    return st.tuples(sk, repeat).map(lambda t: finalize({"moddoc": t[0]["moddoc"], "items": list(t[0]["items"]) * t[1]}))
 
 
 # ------------------------------------------------------------------ finalisation: unique numbering, dangling placement
